@@ -47,6 +47,18 @@ fn c20_underflow(p: &str, ctx: &str) -> Violation {
     else { Violation { clause: "C20.other-panic".into(), sig: "C20.other-panic:not-a-C20-verdict".into(), detail: String::new() } }
 }
 
+/// Properties that promise that something happens (delivery, events, agreement, release of capacity): an execution in which the
+/// library panics cannot keep that promise, and its trace is lost to the oracle, so the panic is reported under the property that
+/// was being checked (C03 reports panics in their own right; C20 classifies counter underflows above).
+const PROMISING: &[&str] = &["C02", "C04", "C05", "C07", "C08", "C09", "C10", "C11", "C12", "C17"];
+static CURRENT_PROPERTY: std::sync::OnceLock<String> = std::sync::OnceLock::new();
+fn aborted_by_panic(p: &str, ctx: &str) -> Violation {
+    let id = CURRENT_PROPERTY.get().cloned().unwrap_or_default();
+    let loc = p.rsplit(" @ ").next().unwrap_or("").to_string();
+    let loc = loc.rsplit("/src/").next().unwrap_or(&loc).to_string();
+    Violation { clause: format!("{}.aborted-by-panic", id), sig: format!("{}.aborted-by-panic:{}", id, loc), detail: format!("{}: the library panicked during this execution, so what {} promises cannot happen on it: {}", ctx, id, p) }
+}
+
 fn threads() -> usize {
     std::env::var("VERIF_THREADS").ok().and_then(|s| s.parse().ok()).unwrap_or_else(|| std::thread::available_parallelism().map(|n| n.get()).unwrap_or(8)).max(1)
 }
@@ -91,6 +103,7 @@ fn run_check(property: &str, tier: &str) -> i32 {
     ex.sample_every = 0;
     if property == "C03" { ex.panic_to_violation = Some(c03::panic_violation); }
     if property == "C20" { ex.panic_to_violation = Some(c20_underflow); }
+    if PROMISING.contains(&property) { let _ = CURRENT_PROPERTY.set(property.to_string()); ex.panic_to_violation = Some(aborted_by_panic); }
     install_panic_hook();
     start_watchdog(&ex, property.to_string());
     let mut scs = pr.scenarios;
